@@ -246,11 +246,17 @@ func c02Run(p *prepared, f *c02Fault, ref *c02Ref, plan []perturb) c02Out {
 			c02MutateSource(p, f)
 		}
 	}
+	// a receiver whose endpoint failed does not vanish at once: its streams end first, the
+	// connection goes a little later (for a third of the faulted runs)
+	var recvCloseDelay time.Duration
+	if f != nil && (f.Bit%3 == 1) && (strings.HasPrefix(f.Kind, "obstruct") || strings.HasPrefix(f.Kind, "src-") || f.Kind == "flip") {
+		recvCloseDelay = 700 * time.Millisecond
+	}
 	remove := installPerturb(plan, extra)
 	out.res = verifnet.Run(verifnet.RunCfg{
 		Manifest: p.m, RootPath: p.rootPath, OutDir: p.out, SendOpts: p.sendOpts(), RecvOpts: p.recvOpts(),
 		Pair: pair, Watchdog: 30 * time.Second, Idle: 4 * time.Second, CloseOnReturn: true, CloseOnSuccess: true,
-		SendCtx: sctx, RecvCtx: rctx,
+		SendCtx: sctx, RecvCtx: rctx, RecvCloseDelay: recvCloseDelay,
 	})
 	remove()
 	verifhook.Set(nil)
